@@ -708,7 +708,22 @@ def obligations_key_lookup(case, which):
     I.obligations = []
     key, kd, kexcs = case.key_terms(a0, k0)
     H = Hashable(key)
-    for (s, res) in I.call(st, f, CallArgs([], {}, Opaque(a0), Opaque(k0))):
+
+    def unknown_callee(name, I_, st_, ca):
+        # key()/lookup() hand the user function to a function that has no contract here: nothing says it does not call it
+        # (klepto._inspect.isvalid does, for callables it cannot inspect).  The callee may evaluate, return anything, or raise.
+        if not any(v is case.uf for v in list(ca.pos) + list(ca.kw.values())):
+            return None
+        s2 = st_.fork()
+        s2.events.append(('user', None, None, 'return'))
+        s2.labels = s2.labels + ['unknown-callee:' + name]
+        return [(s2, Opaque(fresh('unknown_result', Val)))]
+    I.unmodelled_hook = unknown_callee
+    try:
+        results = I.call(st, f, CallArgs([], {}, Opaque(a0), Opaque(k0)))
+    finally:
+        I.unmodelled_hook = None
+    for (s, res) in results:
         post = Snap(case, s)
         path = '/'.join(s.labels) or 'straight'
         ob = _mk_ob(obs, fn, s, path, case, which)
